@@ -803,7 +803,7 @@ def build_cached_store(p, seed):
     backing2 = KVStore("backing2", read_latency=0.003, write_latency=0.004)
     for i, k in enumerate(keys):
         backing2.put_sync(k, f"init#{i}")
-    cache2 = CachedStore("cache2", backing2, 3, _mk_eviction(p.get("policy2", "sampled_lru"), seed + 7, lambda: backing2.now.to_seconds()),
+    cache2 = CachedStore("cache2", backing2, 8, _mk_eviction(p.get("policy2", "sampled_lru"), seed + 7, lambda: backing2.now.to_seconds()),
                          cache_read_latency=0.0002)
     client2 = KVClient("client-seeded", cache2, keys, p["ops"], mix=(0.8, 0.2, 0.0))
 
